@@ -13,8 +13,8 @@
      - rows of different blocks never share an id  ([DistinctIds]).
    "Every edge entry is a pair of vertex ids" is a typing fact of the model (ce : list (nat*nat));
    on the implementation's raw column it is part of the checker ([IsPairTree]). *)
-From Coq Require Import List ZArith Bool Arith.
-From GV Require Import Lib.Tree Model.Gen Proofs.GenP.
+From Coq Require Import List ZArith Bool Arith Lia.
+From GV Require Import Lib.Tree Model.Gen Proofs.GenP Proofs.GenC02P.
 Import ListNotations.
 
 (* fast / network generator: for ALL inputs, callbacks and shuffle outcomes of a run that returns *)
@@ -88,3 +88,56 @@ Example C02_checker_rejects_unrepaired :
   c02_okb true [[7]; [8; 9]] [(0, Bare 0 1); (1, Edges [(0, 1); (1, 2)])]
           [L [I 0; I 1]; L [L [I 0; I 1]; L [I 1; I 2]]]%Z [7; 99] [0; 0; 1; 1] = false.
 Proof. vm_compute. reflexivity. Qed.
+
+(* ================================================================== Growth *)
+(* the verified checker is also COMPLETE, hence it DECIDES the property on raw columns *)
+Theorem C02_checker_complete : forall custom names results ce_raw cn ci,
+  Forall IsPairTree ce_raw -> Spec_C02 custom names results (map t_pair ce_raw) cn ci ->
+  c02_okb custom names results ce_raw cn ci = true.
+Proof. exact c02_okb_complete. Qed.
+Print Assumptions C02_checker_complete.
+
+Theorem C02_checker_correct : forall custom names results ce_raw cn ci,
+  c02_okb custom names results ce_raw cn ci = true <->
+  Forall IsPairTree ce_raw /\ Spec_C02 custom names results (map t_pair ce_raw) cn ci.
+Proof. exact c02_okb_correct. Qed.
+Print Assumptions C02_checker_correct.
+
+(* consequently the model's own columns (edge column as the wire encoder writes it) pass the
+   verified checker: all inputs, all callbacks, all shuffle outcomes of a run that returns *)
+Theorem C02_fast_model_passes_checker : forall build sizes names jds pis cs ce cn ci,
+  gen_fast build sizes (map (hd 0) names) jds pis = Ok (cs, (ce, cn, ci)) ->
+  exists results, Results build cs results /\
+    c02_okb false names results (map of_pair ce) cn ci = true.
+Proof. exact gen_fast_passes_c02. Qed.
+Print Assumptions C02_fast_model_passes_checker.
+
+Theorem C02_custom_model_passes_checker : forall build sizes names mis jds pis cs ce cn ci,
+  gen_custom build sizes names mis jds pis = Ok (cs, (ce, cn, ci)) ->
+  NamesOk build names cs ->
+  exists results, Results build cs results /\
+    c02_okb true names results (map of_pair ce) cn ci = true.
+Proof. exact gen_custom_passes_c02. Qed.
+Print Assumptions C02_custom_model_passes_checker.
+
+(* non-vacuity of the completeness hypotheses: the replay's columns satisfy the Prop-level
+   specification by an explicit block decomposition (not through the checker) *)
+Example C02_replay_meets_spec :
+  Forall IsPairTree [L [I 1; I 0]; L [I 2; I 1]; L [I 1; I 0]]%Z /\
+  Spec_C02 true [[7]; [8; 9]] [(0, Bare 1 0); (1, Edges [(2, 1); (1, 0)])]
+           (map t_pair [L [I 1; I 0]; L [I 2; I 1]; L [I 1; I 0]]%Z) [7; 8; 9] [0; 1; 1].
+Proof.
+  split.
+  - repeat constructor; [now exists 1, 0|now exists 2, 1|now exists 1, 0].
+  - split; [reflexivity|]. split; [reflexivity|].
+    exists [[((1, 0), 7, 0)]; [((2, 1), 8, 1); ((1, 0), 9, 1)]].
+    split; [reflexivity|]. split.
+    + repeat constructor; cbn; intros x y Hx Hy;
+        repeat (destruct Hx as [<-|Hx]; [|try contradiction]); repeat (destruct Hy as [<-|Hy]; [|try contradiction]);
+        reflexivity.
+    + intros a b x y Hab Hx Hy.
+      pose proof (in_nth_nil _ _ _ Hx) as Ha. pose proof (in_nth_nil _ _ _ Hy) as Hb. cbn in Ha, Hb.
+      destruct a as [|[|a]]; destruct b as [|[|b]]; try lia; cbn in Hx, Hy;
+        repeat (destruct Hx as [<-|Hx]; [|try contradiction]); repeat (destruct Hy as [<-|Hy]; [|try contradiction]);
+        cbn; discriminate.
+Qed.
